@@ -67,8 +67,8 @@ import (
 	"k8s.io/apimachinery/pkg/fields"
 	"k8s.io/apimachinery/pkg/runtime"
 	"k8s.io/apimachinery/pkg/types"
-	kubefake "k8s.io/client-go/kubernetes/fake"
 	k8sfake "k8s.io/client-go/kubernetes/fake"
+	kubefake "k8s.io/client-go/kubernetes/fake"
 	ktesting "k8s.io/client-go/testing"
 
 	pb "istio.io/api/security/v1alpha1"
@@ -147,7 +147,7 @@ func newKeyring() *keyring {
 
 // csrSpec is the adversarial content of one CSR.
 type csrSpec struct {
-	form  string   // ok oktype oktrail oklead nopem empty badder trunc badsig emptyblock gen (real util.GenCSR)
+	form string // ok oktype oktrail oklead nopem empty badder trunc badsig emptyblock gen (real util.GenCSR)
 	//                multi (a second CSR block behind the first) multibad (garbage block in front) pss (RSA-PSS signature)
 	//                unkkey (public key algorithm Go does not know) flip<n> (one corrupted byte at n/64 of the DER)
 	key   string   // name in the keyring
@@ -413,10 +413,10 @@ func rawSANEntries(value []byte) ([]string, error) {
 // ---------------------------------------------------------------- fixtures: CAs
 
 type caFixtures struct {
-	extraRoot string             // file handed to NewSelfSignedIstioCAOptions as rootCertFile (kind selfrot): the ECDSA root
-	rotStop   chan struct{}      // stops the root-cert rotator of the previous selfrot CA
-	k8s    *k8sfake.Clientset // the API server holding istio-ca-secret (kind selfk8s)
-	rsaInt [][]byte           // cached RSA intermediate: cert PEM, key PEM
+	extraRoot  string              // file handed to NewSelfSignedIstioCAOptions as rootCertFile (kind selfrot): the ECDSA root
+	rotStop    chan struct{}       // stops the root-cert rotator of the previous selfrot CA
+	k8s        *k8sfake.Clientset  // the API server holding istio-ca-secret (kind selfk8s)
+	rsaInt     [][]byte            // cached RSA intermediate: cert PEM, key PEM
 	selfBundle *util.KeyCertBundle // RSA self-signed root, built once (real NewSelfSignedDebugIstioCAOptions)
 	rootPem    []byte
 	rootCert   *x509.Certificate
@@ -1213,24 +1213,24 @@ type rawTBS struct {
 
 // leafView is what the property talks about, read off the issued leaf certificate.
 type leafView struct {
-	sans      []string // in certificate order: U:<uri> D:<dns> I:<hex bytes> O<tag>:<hex>
-	sanCount  int      // number of SAN extensions
+	sans        []string // in certificate order: U:<uri> D:<dns> I:<hex bytes> O<tag>:<hex>
+	sanCount    int      // number of SAN extensions
 	sanCritical bool
-	cn        string
-	subject   []string // every attribute of the raw subject, in order: <oid>=<value>
-	parsed    *x509.Certificate
-	tbs       []byte // raw TBSCertificate, signature algorithm and signature (verified without crypto/x509's name checks)
-	sigAlg    string
-	sig       []byte
-	isCA      bool
-	bcPresent bool
-	spki      []byte
-	notBefore time.Time
-	notAfter  time.Time
-	keyUsage  int
-	eku       []string
-	xext      []string // extension OIDs other than KU, EKU, BC, SAN, AKI, SKI
-	x509OK    bool
+	cn          string
+	subject     []string // every attribute of the raw subject, in order: <oid>=<value>
+	parsed      *x509.Certificate
+	tbs         []byte // raw TBSCertificate, signature algorithm and signature (verified without crypto/x509's name checks)
+	sigAlg      string
+	sig         []byte
+	isCA        bool
+	bcPresent   bool
+	spki        []byte
+	notBefore   time.Time
+	notAfter    time.Time
+	keyUsage    int
+	eku         []string
+	xext        []string // extension OIDs other than KU, EKU, BC, SAN, AKI, SKI
+	x509OK      bool
 }
 
 func parseLeaf(pemText string) (*leafView, error) {
@@ -1314,16 +1314,16 @@ func parseLeaf(pemText string) (*leafView, error) {
 
 type issueSUT struct {
 	private bool // the current world is a private one (`nap`): it receives events and is closed afterwards
-	authn  *authnSUT
-	keys   *keyring
-	fix    *caFixtures
-	holder *caHolder
-	worlds *worlds
-	cur    *world
-	caOK   bool
-	caKind string
-	maxTTL int64
-	naLine []string
+	authn   *authnSUT
+	keys    *keyring
+	fix     *caFixtures
+	holder  *caHolder
+	worlds  *worlds
+	cur     *world
+	caOK    bool
+	caKind  string
+	maxTTL  int64
+	naLine  []string
 }
 
 func (s *issueSUT) close() {
@@ -1353,14 +1353,14 @@ func codeName(err error) string {
 // outcome of one request on the real code, before formatting.
 type issueResult struct {
 	rejected bool // TLS handshake refused: the request never reached CreateCertificate
-	crash  bool
-	code   string // "" when OK
-	resp   *pb.IstioCertificateResponse
-	leaf   *leafView
-	perr   error
-	spki   []byte
-	before time.Time
-	after  time.Time
+	crash    bool
+	code     string // "" when OK
+	resp     *pb.IstioCertificateResponse
+	leaf     *leafView
+	perr     error
+	spki     []byte
+	before   time.Time
+	after    time.Time
 }
 
 func (s *issueSUT) run(r reqSpec) issueResult {
@@ -1433,7 +1433,9 @@ func applyMode(p *prepared, mode string) (plaintext bool) {
 }
 
 // modeAuthenticates: security.Authenticate gets as far as the authenticators.
-func modeAuthenticates(mode string) bool { return mode == "" || mode == "plain" || mode == "otherplain" }
+func modeAuthenticates(mode string) bool {
+	return mode == "" || mode == "plain" || mode == "otherplain"
+}
 
 func (a reqaSpec) line() []string {
 	return modeTail([]string{"reqa", wire.Enc(strings.Join(a.spec, " ")), a.req.csr.tok(), strconv.FormatInt(a.req.ttl, 10), a.req.imp, a.req.signer, a.req.cluster,
